@@ -163,6 +163,7 @@ def check(ctx):
         elif cd == 0:
             ctx.broken("correspondence:rootloop", {"case": meta[i], "coq": cases[i][:1500]})
     oracle(ctx)
+    warm_start_probe(ctx)
 
 
 def oracle(ctx):
@@ -458,6 +459,34 @@ def oracle(ctx):
         if outs and any(w != outs[0][2] or not torch.allclose(y_, outs[0][1], rtol=0, atol=1e-9) for _, y_, w in outs):
             ctx.fail("oracle", "min:%s:depends-on-a-constant-added-to-the-objective" % meth, {"objective": "|y|^2 + c from (4, 4)", "f_tol": 1e-6, "f_rtol": 0.0},
                      [{"c": sh, "returned": y_.tolist(), "warned": w} for sh, y_, w in outs], "the same point and the same warning status for every c")
+
+
+def warm_start_probe(ctx):
+    """a warm start whose residual is tiny but ABOVE the requested tolerance is iterated on, not returned as is: solve, move a parameter
+    by 1e-9, solve again from the previous solution with f_tol = 1e-12 (round-5 seed C03/13: the exact-root early exit |f| == 0
+    became allclose(f, 0), i.e. |f| < 1e-8)"""
+    from xitorch.optimize import rootfinder, equilibrium
+    from xitorch._utils.exceptions import ConvergenceWarning
+    y0 = torch.tensor([0.3, -0.2, 0.5], dtype=DT)
+    for nm in ("broyden1", "broyden2", "linearmixing"):
+        for fn_name in ("rootfinder", "equilibrium"):
+            c0 = torch.tensor([0.4, 0.1, -0.3], dtype=DT)
+            resid = lambda y, c: y + 0.1 * torch.tanh(y) - c
+            fixed = lambda y, c: c - 0.1 * torch.tanh(y)
+            call = (lambda start, c: rootfinder(resid, start, params=(c,), method=nm, f_tol=1e-13, x_tol=1e-13, maxiter=200)) if fn_name == "rootfinder" \
+                else (lambda start, c: equilibrium(fixed, start, params=(c,), method=nm, f_tol=1e-13, x_tol=1e-13, maxiter=200))
+            with warnings.catch_warnings(record=True) as w:
+                warnings.simplefilter("always")
+                y1 = call(y0, c0)
+                c1 = c0 + 3e-9
+                y2 = call(y1.detach(), c1)
+            warned = any(issubclass(x.category, ConvergenceWarning) or "does not converge" in str(x.message) for x in w)
+            ctx.count(("warm-start-tiny-residual", fn_name, nm), nontrivial=True)
+            r_start = float(resid(y1.detach(), c1).abs().max())
+            r_end = float(resid(y2.detach(), c1).abs().max())
+            if not warned and not r_end <= 1e-12:
+                ctx.fail("oracle", "%s:warm-start:silent-above-tolerance" % fn_name, {"method": nm, "f_tol": 1e-13, "residual_of_the_initial_guess": r_start},
+                         {"residual_of_the_result": r_end}, "|f| <= 1e-12 or a ConvergenceWarning")
 
 
 def search(ctx):
